@@ -9,7 +9,9 @@ mod c01;
 mod c02;
 mod c03;
 mod c04;
+mod c05;
 mod c09;
+mod c10;
 mod tree;
 mod c14;
 mod c15;
@@ -38,7 +40,9 @@ fn scenarios(prop: &str, tier: &str) -> Vec<Scenario> {
         "C02" => c02::scenarios(tier),
         "C03" => c03::scenarios(tier),
         "C04" => c04::scenarios(tier),
+        "C05" => c05::scenarios(tier),
         "C09" => c09::scenarios(tier),
+        "C10" => c10::scenarios(tier),
         "C14" => c14::scenarios(tier),
         "C15" => c15::scenarios(tier),
         "C16" => c16::scenarios(tier),
